@@ -517,7 +517,7 @@ mod kani_c07 {
         }
     }
 
-    /// FAILS: payload() slices `length` bytes although new_checked/check_len never compare the length octet with the buffer
+    /// payload() slices `length` bytes: check_len must have compared the length octet with the buffer (finding W8, fixed)
     #[cfg(all(feature = "proto-sixlowpan", feature = "medium-ieee802154"))]
     #[kani::proof] #[kani::unwind(10)]
     fn c07_sixlowpan_exthdr_payload() {
@@ -526,7 +526,8 @@ mod kani_c07 {
         let n: usize = kani::any();
         kani::assume(n <= L); // tag: range
         if let Ok(p) = SixlowpanExtHeaderPacket::new_checked(&buf[..n]) {
-            kani::cover!(p.length() as usize > n, "checked extension header whose length octet exceeds the buffer");
+            kani::cover!(p.length() > 0 && p.length() as usize + 3 == n, "checked extension header whose payload fills the buffer");
+            assert!(p.length() as usize + 2 <= n, "C07.sixlowpan_exthdr: a checked header's announced payload lies inside the buffer");
             let pl = p.payload();
             assert!(pl.len() == p.length() as usize);
         }
